@@ -12,7 +12,13 @@ _ARITH_FULL = {m: {"shims": ("math", "struct")} for m in (
     "xdsl.transforms.constant_fold_interp", "xdsl.transforms.test_constant_folding", "xdsl.utils.comparisons", "xdsl.folder",
     "xdsl.transforms.canonicalize", "xdsl.interpreter")}
 
+_LOOP_FULL = dict(_ARITH_FULL)
+_LOOP_FULL.update({m: {"shims": ()} for m in ("xdsl.transforms.scf_for_loop_unroll", "xdsl.transforms.scf_for_loop_flatten", "xdsl.transforms.scf_for_loop_range_folding",
+                                              "xdsl.transforms.convert_scf_to_cf", "xdsl.transforms.loop_invariant_code_motion", "xdsl.transforms.control_flow_hoist")})
+
 CHECKS = {
+    "C16": {"module": "vx.checks.c16", "instrument": {"full": _LOOP_FULL}, "maxtasksperchild": 4},
+    "C13": {"module": "vx.checks.c13", "instrument": {}},
     "C11": {"module": "vx.checks.c11", "instrument": {"full": {"xdsl.dialects.builtin": {"shims": ("math", "struct")}}}, "maxtasksperchild": 4},
     "C02": {"module": "vx.checks.c02", "instrument": {"full": _ARITH_FULL}, "maxtasksperchild": 8},
     "C03": {"module": "vx.checks.c03", "instrument": {"identity": "all", "full": {"xdsl.ir.core": {"shims": ()}, "xdsl.transforms.common_subexpression_elimination": {}, "xdsl.dialects.builtin": {"shims": ("math", "struct")}}}, "maxtasksperchild": 8},
